@@ -6,25 +6,25 @@ CHECKS = {
          "explicit-state product BFS of the emitted VHDL (under vsim) against a reference coroutine machine over all input valuations per clock, exhausting the reachable state space of every program of a bounded grammar",
          "trusted base: vsim (own simulator) and the reference machine of DESIGN.md Appendix B; bounded program size"),
  "C06": ("exploration", "bounded-exhaustive enumeration of name assignments / design shapes, each analysed by an independent VHDL front end",
-         "every upstream corpus design, every assignment of collision-alphabet names to <=2 (thorough <=3) declaration slots and a set of structural variants are compiled and the emitted text is checked by vfront's LRM rule set",
+         "every upstream corpus design, every assignment of collision-alphabet names to <=2 (thorough <=3) declaration slots, a generated select_with family (selector type x coverage x default x context) and a set of structural variants (extern libraries, architecture names, duplicate choices, array selectors, integer-to-view casts, ...) are compiled and the emitted text is checked by vfront's LRM rule set",
          "legality = vfront's reading of IEEE 1076-2008 for the emitted subset (validated on the corpus ghdl accepted upstream)"),
  "C07": ("exploration", "bounded-exhaustive enumeration of writer/reader placements; driver sets recomputed from the emitted text",
-         "all placements of up to 2 (thorough 3) accesses to one object over 8 site kinds x 6 access kinds; source-level expectation + driver table of the emitted architecture",
+         "all placements of up to 2 (thorough 3) accesses to one object over 11 site kinds (concurrent, sequential, always block/expression, raw context incl. the else branch of its edge test, nested block, instance outputs) x 6 access kinds, also with identically named contexts; source-level expectation + driver table of the emitted architecture",
          "driver table computed by vfront; weakest reading for disjoint slices driven from different contexts (no rejection demanded)"),
  "C03": ("model_checking", "explicit-state model checking (product BFS of emitted design x reference interpreter of the body; bounded-exhaustive body enumeration)",
          "explicit-state product BFS of the emitted VHDL against a direct interpreter of the abstract sequential body over all 16 input valuations per clock; every body of a bounded grammar; continuous outputs compared before and registers after every clock",
          "trusted base: vsim and the reference interpreter written from the property statement (verif/gen/seqbody.py)"),
  "C04": ("model_checking", "explicit-state model checking over (state, reset) pairs: product BFS with reset levels and asynchronous reset pulses as environment events",
-         "C01/C03 program families x 4 reset flavours x objects with/without default/noreset x on_reset; BFS visits every reachable (state, reset) pair and compares with a reference that models reset as re-initialisation",
+         "C01/C03 program families x 8 reset flavours (sync/async x polarity, step_cond, with_params) x objects with/without default/noreset x on_reset; BFS visits every reachable (state, reset) pair and compares with a reference that models reset as re-initialisation; plus derived resets (or_reset/and_reset x polarity x async override) and clock/reset taken from elements of one vector, explored over all single-input changes and clock edges",
          "inputs incl. reset are defined from time 0; single clock; vsim trusted"),
  "C05": ("exploration", "bounded-exhaustive matrix of (source type, target type, assignment form) x all source values, simulated",
-         "all ordered type pairs over Bit/bool/BitVector/Unsigned/Signed[1..3(4)] + literals x 13 assignment forms; must-reject table from the statement; every accepted design simulated for every source value",
+         "all ordered type pairs over Bit/bool/BitVector/Unsigned/Signed[1..3(5)] + run-time Integer + literals x 30 assignment forms (signal/variable/push/slice/element/port/view/return and branch merges, Null merges, expression-result sources, instances inside contexts); must-reject table from the statement; every accepted design simulated for every source value; per-form vacuity guard",
          "vector->bool (truth test) and int->Bit/BitVector are left open (not covered by the statement)"),
  "C08": ("exploration", "bounded-exhaustive control-flow shapes x def/use placements; dynamic POISON check under exhaustive input enumeration",
          "all programs of a control-flow grammar x definition/use placements in clocked/clockless sequential contexts, helper returns and coroutine states; reference interpreter decides must-reject; accepted designs run in vsim POISON mode under every input valuation / reachable state",
          "POISON: every process variable declared without initial value is a compiler intermediate"),
  "C12": ("model_checking", "explicit-state equivalence checking (product BFS of hierarchical design x flat design) + structural comparison of the emitted text",
-         "instantiation trees (4 leaf templates x 8 topologies, slice/bit/view actuals, nesting, inline, OpenEntity/ConnectedEntity) rendered hierarchically and flat; BFS over the product under all inputs; port lists, port maps, entity order, to_dir files compared with the source",
+         "instantiation trees (4 leaf templates x fixed topologies with slice/bit/typed-view/expression actuals on inputs and outputs, nesting, instances inside contexts, OpenEntity/ConnectedEntity, plus 940 generated two-instance sequences) rendered hierarchically and flat; BFS over the product under all inputs; port lists, port maps, entity order, emitted-entity set, to_dir files compared with the source",
          "flat rendering calls the same logic function on the same actuals; vsim trusted"),
  "C16": ("model_checking", "explicit-state model checking (product BFS of marker-wrapper design x reference counter models with admissible-state sets)",
          "wait_for / Waiter / delayed / DelayLine / continuous_counter / ClockDivider / ToggleSignal / debounce configurations (constant, run-time and Duration arguments) each explored to exhaustion under every admissible input per clock against counters written from the docstrings and upstream mocks",
@@ -57,10 +57,10 @@ CHECKS = {
          "all formats [l:r] in -3..3 width<=5 (thorough -4..4 width<=6) for SFixed/UFixed: + - * == resize (2x2 styles) constructors, Python level and compiled wrappers under vsim, compared with fractions.Fraction",
          "quick hardware level complete for -2..2 plus a seed-chosen sixth of the remaining pairs (notes/C19.md)"),
  "C20": ("model_checking", "explicit-state model checking (product BFS of register-map design x byte-array model + AXI monitor x protocol-respecting master environment)",
-         "four register-map layouts on addr_map_entity(addr_width=4); per alphabet variant the reachable product space is exhausted under all per-clock valid/ready/payload choices; handshake, exactly-once response, strobe-exact write, read value, unmapped and notification rules",
+         "fixed register-map layouts (fields, arrays, AddrRange/Memory, interconnect) on addr_map_entity; per alphabet variant the reachable product space is exhausted under all per-clock valid/ready/payload choices; handshake, exactly-once response, strobe-exact write, read value, unmapped and notification rules; plus generated nesting trees (depth <=4, offsets per level) with an independent address oracle",
          "data abstraction: two data words, four strobes (assumption recorded in the evidence); reset not asserted (notes/C20.md)"),
  "C11": ("model_checking", "explicit-state search over histories of compilations on the real process-wide compiler state (os.fork as state snapshot) + fresh-interpreter variants under several hash seeds",
-         "every sequence of <=2 compilations over a 25-design alphabet (accepted and rejected designs, one per failure stage) and <=3 over a core, executed in one interpreter with fork snapshots; after every history the output must equal the fresh-interpreter golden bytes / the same rejection; every accepted design also compiled in fresh interpreters under PYTHONHASHSEED 0..3 and perturbed allocation",
+         "every sequence of <=2 compilations over a 32-design alphabet (20 accepted, 12 rejected - one per failure stage; dynamic ports, module globals, attributes, library paths) and <=3 over a core, executed in one interpreter with fork snapshots; after every history the output must equal the fresh-interpreter golden bytes / the same rejection; every accepted design also compiled in fresh interpreters under several PYTHONHASHSEED values and perturbed allocation",
          "alphabet of designs is fixed; histories beyond the stated depth and interpreter state outside the compiler are not covered (notes/C11.md)"),
 }
 ORDER = sorted(CHECKS)
